@@ -17,7 +17,7 @@ def guard(g, kind):
 
 LIT = {"int": "42", "float": "2.5", "neg": "-3", "hex": "0xFF", "oct": "0o17", "bin": "0b1010", "dec": "0d19", "sci": "1.5e3", "scineg": "2.5e-2",
        "scicap": "1.5E3", "rat": "3/4", "cplx": "1+2i", "cplxneg": "1.5-2.5i", "imag": "2i", "typed": "5u8", "annot": "5<u8>", "str": '"hi"',
-       "stresc": '"a\\"b"', "strempty": '""', "atom": ":ok", "empty": "_", "true": "true", "false": "false", "big": "123456789012", "leaddot": ".5"}
+       "stresc": '"a\\"b"', "strnl": '"one\\ntwo"', "strraw": '"one\ntwo"', "strtab": '"a\\tb"', "strsp": '"  two  spaces  "', "strempty": '""', "atom": ":ok", "empty": "_", "true": "true", "false": "false", "big": "123456789012", "leaddot": ".5"}
 
 def render(cs):
     f, a, b, c, d = cs["fam"], cs["a"], cs["b"], cs["c"], cs["d"]
@@ -53,7 +53,14 @@ def render(cs):
         return s if b == "expr" else f"y := {s}"
     if f == "lit":
         l = LIT[a]
-        return {"expr": l, "inmat": f"m := [{l} {l}]", "arg": f"r := foo({l})"}[b]
+        return {"expr": l, "inmat": f"m := [{l} {l}]", "arg": f"r := foo({l})",
+                # every literal in every embedding context: statement-body function, match-arm function, match expression arm,
+                # record field, tuple element, set element, state-machine output arm, right-hand side of an assignment
+                "fnbody": f"f(x<u64>) = y<u64> :=\n  y := {l}.", "fnbody2": f"f(x<u64>) = y<u64> :=\n  k := {l}\n  y := k.",
+                "fnarm": f"f(inp<u64>) => <u64>\n  | 0u64 => {l}\n  | * => {l}.", "matcharm": f"r := t?\n  | 0u64 => {l}\n  | * => {l}.",
+                "rec": f"r := {{a: {l}, b: {l}}}", "tup": f"r := ({l}, {l})", "set": f"r := {{{l}, {l}}}",
+                "fsmout": f"#T(n<u64>) -> :A(n)\n  :A(x) -> :B(x)\n  :B(x)\n    ├ x > 0u64 => {l}\n    └ * => {l}.",
+                "assign": f"x = {l}", "fence": f"```mech:z\nq := {l}\n```"}[b]
     if f == "enum":
         pl = {"none": ["", "", ""], "u64": ["<u64>", "<u64>", "<u64>"], "tuple": ["<(u64,u64)>"] * 3, "mixed": ["", "<u64>", "<(u64,string)>"]}[b]
         return "<color> := " + " | ".join(f":{n}{p}" for n, p in list(zip(["red", "green", "blue"], pl))[: int(a)])
